@@ -84,6 +84,13 @@ structure ROut where
   nasync : Nat
   released : List Nat
 
+/-- the asynchronous request that occupies handler slot `k` -/
+def slotIs (k : Nat) (p : Pend) : Bool :=
+  match p.kind with
+  | .slow _ s => s == k
+  | .run _ s => s == k
+  | _ => false
+
 /-- Replay one harness operation on the model (before the final settling). `none` = the operation has
 no meaning in this configuration (`postx` on a stateless endpoint) or a label that must be enabled is not. -/
 def modelOp (d : RState) (op : Op) : Option ROut :=
@@ -177,7 +184,7 @@ def modelOp (d : RState) (op : Op) : Option ROut :=
     if k = 0 || k > d.nslow || d.released.contains k then some { base with status := .noop }
     else
       let base := { base with status := .ok, released := d.released ++ [k] }
-      match d.pend.find? (fun p => match p.kind with | .slow _ s => s == k | .run _ s => s == k | _ => false) with
+      match d.pend.find? (slotIs k) with
       | some p =>
         let rest := d.pend.filter (fun q => q.tag != p.tag)
         match p.kind with
